@@ -19,9 +19,17 @@ fn assumptions() -> Vec<String> {
 
 /// a long mixed history: byte input, API calls, resizes, DECCOLM, display(), dirty clearing
 pub fn mixed_history(rng: &mut Rng, c: u32, l: u32, n: usize, with_clear: bool) -> Vec<Op> {
-    let mut ops = Vec::new();
+    let mut ops: Vec<Op> = Vec::new();
     let (mut cc, mut cl) = (c, l);
     for _ in 0..n {
+        // an earlier operation of this history again, verbatim (see gen::session)
+        if ops.len() > 2 && rng.below(12) == 0 {
+            let o = ops[rng.usize(ops.len())].clone();
+            if !matches!(o, Op::Api(Call::Resize(..))) {
+                ops.push(o);
+                continue;
+            }
+        }
         match rng.below(100) {
             0..=39 => {
                 let k = 1 + rng.usize(6);
